@@ -93,9 +93,26 @@ func rulePrintForm(c *core.Ctx, rule, ruleNotes string) {
 			seen[key] = true
 			writes = append(writes, w)
 		}
+		// what this path has written so far: the heading (the line that carries the formatted date) and the
+		// terminator (the empty line)
+		if len(w.args) >= 1 && isCallOnAny(w.args[0], "(time.Time).Format") {
+			s.SetData("heading", "1")
+		}
+		if (w.ln && len(w.args) == 1 && w.args[0].Key() == `c:""`) || (!w.ln && w.consts && w.format == "\n" && len(w.args) == 0) {
+			s.SetData("terminator", "1")
+		}
 		return nil, false
 	}
-	x.Run(x.NewState(fn, nil, nil))
+	pterms := x.Run(x.NewState(fn, nil, nil))
+	var pathBad []string
+	for _, tm := range pterms {
+		if tm.Kind != "return" || len(tm.Ret) != 1 || !isNilConst(tm.Ret[0]) {
+			continue
+		}
+		if tm.State.Data["heading"] != "1" || tm.State.Data["terminator"] != "1" {
+			pathBad = append(pathBad, fmt.Sprintf("%s: a day is reported as printed (nil) on a path that wrote heading=%q terminator=%q (%s): a day without entries, or with notes only, vanishes from the printed log", c.P.Pos(tm.Pos), tm.State.Data["heading"], tm.State.Data["terminator"], x.Valuation(tm.State)))
+		}
+	}
 	if !account(c, x, rule, fn) {
 		return
 	}
@@ -220,6 +237,7 @@ func rulePrintForm(c *core.Ctx, rule, ruleNotes string) {
 			bad = append(bad, "the printer writes no "+k+" line")
 		}
 	}
+	bad = append(bad, pathBad...)
 	bad, badNotes = uniq(bad), uniq(badNotes)
 	if len(bad) == 0 {
 		c.Discharge(rule, fname, "formats", c.P.Pos(fn.Pos()), fmt.Sprintf("%d constant formats agree with the tokenizer's tables (name set %q, quantity set %q, splitter %q)", len(writes), nameSet, qtySet, split))
